@@ -122,22 +122,22 @@ Proof.
   - congruence.
 Qed.
 Lemma xor_span_perm len gens g : Forall (fun g => length g = len) gens -> In g (span_list len gens) ->
-  Permutation (map (xorv g) (span_list len gens)) (span_list len gens).
+  NoDup (span_list len gens) -> Permutation (map (xorv g) (span_list len gens)) (span_list len gens).
 Proof.
-  intros HF Hg. pose proof (span_length len gens HF) as HL. rewrite Forall_forall in HL.
+  intros HF Hg Hnd. pose proof (span_length len gens HF) as HL. rewrite Forall_forall in HL.
   apply NoDup_Permutation_bis.
   - assert (Hinj : forall u v, In u (span_list len gens) -> In v (span_list len gens) -> xorv g u = xorv g v -> u = v).
     { intros u v Hu Hv E. rewrite <- (xorv_cancel_l g u), <- (xorv_cancel_l g v) by (rewrite (HL g Hg); symmetry; auto). now rewrite E. }
-    revert Hinj. generalize (span_list len gens) as s. induction s as [|x s IHs]; intros Hinj; cbn; [constructor|].
-    intros. apply NoDup_cons_iff in H. destruct H as [Hx Hs]. constructor.
+    revert Hnd Hinj. generalize (span_list len gens) as s. induction s as [|x s IHs]; intros Hnd Hinj; cbn; [constructor|].
+    apply NoDup_cons_iff in Hnd. destruct Hnd as [Hx Hs]. constructor.
     + intros Hin. apply in_map_iff in Hin. destruct Hin as (y & Ey & Hy).
       assert (y = x) by (apply Hinj; [right; exact Hy|left; reflexivity|exact Ey]). subst. contradiction.
-    + apply IHs; [|exact Hs]. intros u v Hu Hv. apply Hinj; right; assumption.
+    + apply IHs; [exact Hs|]. intros u v Hu Hv. apply Hinj; right; assumption.
   - rewrite map_length. lia.
   - intros v Hv. apply in_map_iff in Hv. destruct Hv as (u & <- & Hu). apply span_closed; assumption.
 Qed.
 Theorem coset_prob_well_defined d n gens f g :
-  Forall (fun g => length g = n + n) gens -> indep (n + n) gens -> In g (span_list (n + n) gens) ->
+  Forall (fun g => length g = (n + n)%nat) gens -> indep (n + n)%nat gens -> In g (span_list (n + n)%nat gens) ->
   coset_prob d n gens (xorv f g) = coset_prob d n gens f.
 Proof.
   intros HF HI Hg. unfold coset_prob.
@@ -145,7 +145,7 @@ Proof.
     by (intros h; rewrite xorv_assoc; reflexivity).
   rewrite <- (map_map (xorv g) (fun h' => prob d n (xorv f h'))).
   apply sum_list_perm. apply Permutation_map.
-  refine (xor_span_perm (n + n) gens g HF Hg _). apply span_nodup; assumption.
+  apply xor_span_perm; auto. apply span_nodup; assumption.
 Qed.
 
 (* qubit-node values of the planar networks: the probability of f . Z^n X^e Z^s X^w (horizontal edge)
